@@ -242,14 +242,16 @@ let tie_checks (o : outrec) (c : ctx) (m : ms) (r : msrec) : string list =
   (match lim_int lim "size" with
    | Some e -> if !cur_mode = "real" && e <> sl then d := Printf.sprintf "script_len model=%d script_size()=%d" sl e :: !d
    | None -> ());
+  (* the execution figures are NOT ties: the model's are static over-approximations of the true
+     maxima, the implementation's are its own estimates (C09 judges those); only recorded *)
   (match lim_int lim "ops" with
-   | Some e -> if c <> Tap && e > int_of_n (ops_bound kkf m) then d := Printf.sprintf "ops_bound model=%d < impl=%d" (int_of_n (ops_bound kkf m)) e :: !d
+   | Some e -> if c <> Tap && e > int_of_n (ops_bound kkf m) then bump "info_impl_figure_above_model_bound/ops"
    | None -> ());
   (match lim_int lim "wit" with
-   | Some e -> if e > int_of_n (wit_items m) + 1 then d := Printf.sprintf "wit_items model=%d+1 < impl=%d" (int_of_n (wit_items m)) e :: !d
+   | Some e -> if e > int_of_n (wit_items m) + 1 then bump "info_impl_figure_above_model_bound/witness_items"
    | None -> ());
   (match lim_int lim "stk" with
-   | Some e -> if e > int_of_n (stack_bound kkf m) then d := Printf.sprintf "stack_bound model=%d < impl=%d" (int_of_n (stack_bound kkf m)) e :: !d
+   | Some e -> if e > int_of_n (stack_bound kkf m) then bump "info_impl_figure_above_model_bound/stack"
    | None -> ());
   (match lim_int lim "h" with
    | Some e -> if e <> int_of_n (ms_height m) then d := Printf.sprintf "height model=%d impl=%d" (int_of_n (ms_height m)) e :: !d
@@ -274,9 +276,24 @@ let get_pol () : vpolicy =
   | Some p -> p
   | None -> let p = parse_pol (split !cur_pol) in Hashtbl.reset pol_memo; Hashtbl.replace pol_memo !cur_pol p; p
 
+(* which restriction of the context an output breaks (refines the ClCtx clause in keys) *)
+let ctx_reason (c : ctx) (ms_list : ms list) : string =
+  let legacy = (c = Bare || c = Legacy) in
+  let subs = List.concat_map subterms ms_list in
+  let has f = List.exists f subs in
+  if has (function MOrI _ -> legacy | _ -> false) then "or_i"
+  else if has (function MDupIf _ -> legacy | _ -> false) then "dup_if"
+  else if has (function MMulti _ | MSortedMulti _ -> c = Tap | _ -> false) then "multi"
+  else if has (function MMultiA _ | MSortedMultiA _ -> c <> Tap | _ -> false) then "multi_a"
+  else if has (function MRawPkH _ -> true | _ -> false) then "raw_pkh"
+  else "other"
+
+let cur_reason = ref ""
+
 let report_bad (o : outrec) (clauses : string list) (world : string) (mstoks : string) (str : string) =
   incr n_bad;
   let c0 = List.hd clauses in
+  let c0 = if c0 = "ClCtx" then "ClCtx." ^ !cur_reason else c0 in
   let key = Printf.sprintf "%s:%s" c0 (match fst (ctx_of o) with Bare -> "bare" | Legacy -> "legacy" | Segwitv0 -> "segwitv0" | Tap -> "tap") in
   let key = String.map (fun ch -> if ch = ' ' then '_' else ch) key in
   Printf.printf "BAD C08 | key=%s | id=%s | mode=%s | shape=%s | api=%s | ctx=%s | desc=%s | clauses=%s | world=%s | pol=%s | polstr=%s | ms=%s | str=%s\n"
@@ -301,7 +318,7 @@ let finish_out (o : outrec) =
     let ik = n_of_int o.ik in
     let failing = run_tr_case o.kk pol ik o.inpol dl expected in
     let impl = List.concat_map (fun (r, _, _) -> impl_clauses r) leaves in
-    let impl = if o.drp <> "ok-eq" then impl @ ["DescReparse:" ^ o.drp] else impl in
+    let impl = if o.drp <> "ok-eq" && o.drp <> "ok-alias" then impl @ ["DescReparse:" ^ o.drp] else impl in
     let all = List.map clause_name failing @ impl in
     bump (Printf.sprintf "tr_leaves/%d" (min (List.length leaves) 9));
     incr n_valid;
@@ -325,6 +342,7 @@ let finish_out (o : outrec) =
         else if List.mem ClSemSigned failing then
           (match List.find_map (fun m -> find_sigless (lift_ms m)) lv with Some f -> world_str f | None -> "-")
         else "-" in
+      cur_reason := ctx_reason Tap lv;
       report_bad o all world (String.concat " ; " (List.map (fun (r, _, _) -> Printf.sprintf "@%d %s" r.depth r.toks) leaves)) o.dstr
     end;
     if !coq_budget_tr > 0 || (all <> [] && !coq_budget_bad > 0) then begin
@@ -345,7 +363,8 @@ let finish_out (o : outrec) =
       n_nodes := !n_nodes + List.length codes;
       let failing = run_ms_case c o.kk bare pol m codes in
       let impl = impl_clauses r in
-      let impl = if o.desc <> "" && o.drp <> "ok-eq" then impl @ ["DescReparse:" ^ o.drp] else impl in
+      let impl = if o.desc <> "" && o.drp <> "ok-eq" && o.drp <> "ok-alias" then impl @ ["DescReparse:" ^ o.drp] else impl in
+      if o.drp = "ok-alias" then bump "desc_reparse_alias(pkh)";
       let all = List.map clause_name failing @ impl in
       incr n_valid;
       n_worlds := !n_worlds + List.length (worlds_of (lift_c pol) (lift_ms m));
@@ -358,6 +377,7 @@ let finish_out (o : outrec) =
           else if List.mem ClSemSigned failing then
             (match find_sigless (lift_ms m) with Some f -> world_str f | None -> "-")
           else "-" in
+        cur_reason := ctx_reason c [m];
         report_bad o all world r.toks r.str
       end;
       if !samples_left > 0 && o.api = "compile" then begin
